@@ -2,7 +2,7 @@
 (* C09 - proxied traffic follows the documented routing and never leaks outside it.          *)
 (*                                                                                            *)
 (* Two layers over one vocabulary (the event log that the recording proxy party of            *)
-(* vh/proxynet.py writes: dial / tls / msg / reply / pclose / start / end):                   *)
+(* vh/proxynet.py writes: dial / tls / msg / reply / redir / pclose / start / end):           *)
 (*                                                                                            *)
 (*   RULES  the property, as predicates Off_<Clause>(c, log, i) "position i offends" (and the  *)
 (*          sets Bad_<Clause>(c, log) of offending positions).  They only look at what the    *)
@@ -14,7 +14,9 @@
 (*          closed connections only, proxy-header merge only when not tunnelling),            *)
 (*          HTTPSConnection.connect (TLS to proxy, CONNECT, TLS(-in-TLS) to origin), with     *)
 (*          the environment choosing the CONNECT reply, and whether the peer closes the       *)
-(*          connection after a response.  Named deviations (constant Bug) re-create, at       *)
+(*          connection after a response, or answers 3xx with a Location on the OTHER scheme   *)
+(*          of the same destination (PoolManager.urlopen then re-enters ProxyManager.urlopen  *)
+(*          with the SAME header carrier kw["headers"]).  Named deviations (constant Bug) re-create, at       *)
 (*          design level, the mistakes the clauses are meant to catch.                        *)
 EXTENDS Naturals, Sequences, FiniteSets, TLC
 
@@ -31,6 +33,8 @@ CONSTANTS ProxySchemes,   \* subset of {"http","https"}
           MaxReq,         \* 1..3 requests per scenario
           MaxBad,         \* at most this many non-200 CONNECT replies per scenario
           Replies,        \* subset of {"200","403","407","502","garbage"}
+          MaxRedir,       \* 0..2: redirects (to the other scheme of the same destination) per request
+          RedirCodes,     \* subset of {"301","302","303","307","308"}
           Bug             \* "none" or the name of a design-level deviation (see TunnelRequiredCode etc.)
 
 -----------------------------------------------------------------------------
@@ -41,21 +45,23 @@ ProxyAddr == "proxy.test:3128"
 UrlHost(hk) == CASE hk = "name" -> "origin.test" [] hk = "ipv4" -> "10.0.0.7" [] hk = "ipv6" -> "[fd00::7]"
 DefaultPort(ds) == IF ds = "https" THEN "443" ELSE "80"
 ExplicitPort(ds) == IF ds = "https" THEN "8443" ELSE "8080"
-PortOf(c) == IF c.port = "default" THEN DefaultPort(c.ds) ELSE ExplicitPort(c.ds)
-NetLoc(c) == UrlHost(c.hk) \o (IF c.port = "default" THEN "" ELSE ":" \o ExplicitPort(c.ds))
-Path(k) == "/r" \o ToString(k)
-Url(c, k) == c.ds \o "://" \o NetLoc(c) \o Path(k)
-Authority(c) == UrlHost(c.hk) \o ":" \o PortOf(c)        \* exactly the URL's host:port, IPv6 bracketed
+\* d = scheme of the current hop (a redirect flips it), h = number of redirects already followed
+Flip(d) == IF d = "https" THEN "http" ELSE "https"
+PortOf(c, d) == IF c.port = "default" THEN DefaultPort(d) ELSE ExplicitPort(d)
+NetLoc(c, d) == UrlHost(c.hk) \o (IF c.port = "default" THEN "" ELSE ":" \o ExplicitPort(d))
+Path(k, h) == "/r" \o ToString(k) \o (CASE h = 0 -> "" [] h = 1 -> "x" [] OTHER -> "xx")
+Url(c, d, k, h) == d \o "://" \o NetLoc(c, d) \o Path(k, h)
+Authority(c, d) == UrlHost(c.hk) \o ":" \o PortOf(c, d)  \* exactly the URL's host:port, IPv6 bracketed
 SniOf(c) == IF c.hk = "name" THEN UrlHost(c.hk) ELSE ""  \* IP literals are never sent as SNI
 ProxyKinds == {"pauth", "ptag"}
 BadReplies == {"403", "407", "502"}
 
 \* The documented routing, as far as the PROPERTY fixes it (three-valued: the rest is "either").
-MustTunnel(c) == c.ds = "https" /\ ~c.fwd
-MustForward(c) == c.ds = "http"
+MustTunnel(c, d) == d = "https" /\ ~c.fwd
+MustForward(c, d) == d = "http"
 \* ... and as the CODE decides it (util/proxy.py connection_requires_http_tunnel).
-TunnelRequiredCode(c) ==
-    IF c.ds = "http" THEN FALSE
+TunnelRequiredCode(c, d) ==
+    IF d = "http" THEN FALSE
     ELSE IF c.ps = "https" /\ (c.fwd \/ Bug = "no_tunnel_https_proxy") THEN FALSE
     ELSE TRUE
 
@@ -84,6 +90,11 @@ CSeq(log) ==
           ELSE [cs[i - 1] EXCEPT ![log[i].cid] = ConnStep(@, log[i])]
     IN cs
 
+\* Which hop of its request an event belongs to: the party logs a "redir" event whenever it answers
+\* 3xx, and every redirect goes to the other scheme of the same destination.
+HopAt(log, i) == Cardinality({j \in 1..(i - 1) : log[j].ev = "redir" /\ log[j].k = log[i].k})
+DsAt(c, log, i) == IF HopAt(log, i) % 2 = 0 THEN c.ds ELSE Flip(c.ds)
+
 IsMsg(e) == e.ev = "msg"
 IsRequestMsg(e) == e.ev = "msg" /\ e.form # "CONNECT"
 Idx(log) == 1..Len(log)
@@ -98,13 +109,13 @@ Idx(log) == 1..Len(log)
 \* TCP only ever goes to the proxy.
 Off_HttpsOnlyViaTunnelUnlessOptedIn(c, log, i) ==
     \/ log[i].ev = "dial" /\ log[i].target # ProxyAddr
-    \/ /\ MustTunnel(c) /\ IsMsg(log[i])
+    \/ /\ IsMsg(log[i]) /\ MustTunnel(c, DsAt(c, log, i))
        /\ \/ log[i].party = "proxy" /\ log[i].form # "CONNECT"
           \/ log[i].party = "origin" /\ CSeq(log)[i - 1][log[i].cid] \notin {"tunnel", "tlsintunnel"}
 
 \* CONNECT names exactly the URL's host:port, IPv6 literal bracketed, default port spelled out.
 Off_ConnectTargetExact(c, log, i) ==
-    IsMsg(log[i]) /\ log[i].form = "CONNECT" /\ log[i].target # Authority(c)
+    IsMsg(log[i]) /\ log[i].form = "CONNECT" /\ log[i].target # Authority(c, DsAt(c, log, i))
 
 \* Whatever reaches the origin travelled over TLS that was verified against the destination's
 \* name: the certificate the party showed on that layer was a good one for the destination and
@@ -116,12 +127,12 @@ Off_OriginNameVerifiedInsideTunnel(c, log, i) ==
 \* http:// destination.
 Off_FormByRoute(c, log, i) ==
     IsMsg(log[i]) /\
-        \/ log[i].party = "origin" /\ (log[i].form # "origin" \/ log[i].target # Path(log[i].k))
+        \/ log[i].party = "origin" /\ (log[i].form # "origin" \/ log[i].target # Path(log[i].k, HopAt(log, i)))
         \/ log[i].party = "proxy" /\ log[i].form # "CONNECT"
-              /\ (log[i].form # "absolute" \/ log[i].target # Url(c, log[i].k))
-        \/ log[i].form = "CONNECT" /\ MustForward(c)
+              /\ (log[i].form # "absolute" \/ log[i].target # Url(c, DsAt(c, log, i), log[i].k, HopAt(log, i)))
+        \/ log[i].form = "CONNECT" /\ MustForward(c, DsAt(c, log, i))
 
-\* Proxy headers (Proxy-Authorization, ...) never appear inside a tunnel.
+\* Proxy headers (Proxy-Authorization, ...) never appear inside a tunnel - on any hop of a request.
 Off_ProxyHeadersOnlyToProxy(c, log, i) ==
     IsMsg(log[i]) /\ log[i].party = "origin" /\ log[i].hdr \cap ProxyKinds # {}
 
@@ -158,9 +169,11 @@ Off_RefusalRaises(c, log, j) ==
 \* every origin message travels on a connection that, since its own dial, got CONNECT 200 and the
 \* inner handshake; and when nothing in the environment stands in the way (all replies 200, good
 \* certificates) the request is really carried, i.e. the caller gets the 200 response.
-Healthy(c, log, j) == LastFail(log, j) = 0 /\ (c.ps = "https" => c.pcert = "ok") /\ c.ocert = "ok"
+\* (a bad certificate shows up as a failed handshake event, so "no failure event" covers it)
+Healthy(c, log, j) == LastFail(log, j) = 0
 Off_Retunnelled(c, log, i) ==
-    \/ IsMsg(log[i]) /\ log[i].party = "origin" /\ c.ds = "https" /\ CSeq(log)[i - 1][log[i].cid] # "tlsintunnel"
+    \/ IsMsg(log[i]) /\ log[i].party = "origin" /\ DsAt(c, log, i) = "https"
+          /\ CSeq(log)[i - 1][log[i].cid] # "tlsintunnel"
     \/ log[i].ev = "end" /\ Healthy(c, log, i) /\ ~(log[i].kind = "response" /\ log[i].status = 200)
 
 Bad_HttpsOnlyViaTunnelUnlessOptedIn(c, log) == {i \in Idx(log) : Off_HttpsOnlyViaTunnelUnlessOptedIn(c, log, i)}
@@ -196,74 +209,89 @@ VARIABLES cfg,      \* the configuration (chosen once)
           nreq,     \* number of requests of this scenario
           log,      \* what the parties and the caller recorded
           pc, k,    \* control state of the one client thread, current request ordinal
-          att,      \* retries left for the current request
-          slot,     \* the one pooled connection: [cid, st, tun, dropped] (st = "none": empty slot)
+          att,      \* what is left of Retry.total for the current request (errors and redirects both use it)
+          hop,      \* redirects already followed for the current request
+          curds,    \* scheme of the URL of the current hop
+          carrier,  \* header kinds in kw["headers"], the dict PoolManager.urlopen hands from hop to hop
+          slot,     \* per pool ("dest" for https:// URLs, "proxy" for http:// URLs) the one pooled connection
           conn,     \* the connection checked out for the current attempt
           mode,     \* "tunnel" | "direct": what connect() is about to do
           hdrs, target, err, nextcid, nconn, bad,
-          script    \* environment choices so far: [replies, closes]
-vars == <<cfg, nreq, log, pc, k, att, slot, conn, mode, hdrs, target, err, nextcid, nconn, bad, script>>
+          script    \* environment choices so far: [replies, closes, redirs]
+vars == <<cfg, nreq, log, pc, k, att, hop, curds, carrier, slot, conn, mode, hdrs, target, err, nextcid, nconn, bad,
+          script>>
 
 NoConn == [cid |-> 0, st |-> "none", tun |-> FALSE, dropped |-> FALSE]
+Pools == {"proxy", "dest"}
+PoolOf(d) == IF d = "https" THEN "dest" ELSE "proxy"        \* ProxyManager.connection_from_host
 
+CanTunnel(c, d) == d = "https" /\ ~(c.ps = "https" /\ c.fwd)
 Configs ==
     {c \in [ps : ProxySchemes, ds : DestSchemes, fwd : Fwds, hk : HostKinds, port : PortKinds, pcert : PCerts,
             ocert : OCerts, ph : PHdrSets, rh : RHdrSets, retries : RetrySet] :
         /\ (c.ps = "http" => c.pcert = "ok")                   \* a plain proxy shows no certificate
-        /\ (~(c.ds = "https" /\ ~(c.ps = "https" /\ c.fwd)) => c.ocert = "ok")} \* no tunnel: origin cert unused
+        /\ (~(CanTunnel(c, c.ds) \/ (MaxRedir > 0 /\ c.retries > 0 /\ CanTunnel(c, Flip(c.ds))))
+               => c.ocert = "ok")}                             \* no tunnel possible: origin cert unused
 
 Init == /\ cfg \in Configs /\ nreq \in 1..MaxReq
-        /\ log = <<>> /\ pc = "idle" /\ k = 0 /\ att = 0 /\ slot = NoConn /\ conn = NoConn /\ mode = "direct"
-        /\ hdrs = {} /\ target = "" /\ err = <<>> /\ nextcid = 1 /\ nconn = 0 /\ bad = 0
-        /\ script = [replies |-> <<>>, closes |-> {}]
+        /\ log = <<>> /\ pc = "idle" /\ k = 0 /\ att = 0 /\ hop = 0 /\ curds = cfg.ds /\ carrier = {}
+        /\ slot = [p \in Pools |-> NoConn] /\ conn = NoConn /\ mode = "direct"
+        /\ hdrs = {} /\ target = "" /\ err = <<>> /\ nextcid = 1 /\ nconn = [p \in Pools |-> 0] /\ bad = 0
+        /\ script = [replies |-> <<>>, closes |-> {}, redirs |-> <<>>]
 
 Ev(r) == Append(log, r)
 Closed(c) == c.st \in {"fresh", "closed"}          \* HTTPConnection.is_closed: sock is None
+Tun == TunnelRequiredCode(cfg, curds)
+Pool == PoolOf(curds)
 
-\* caller: pm.request("GET", url, headers=rh)
+\* caller: pm.request("GET", url, headers=rh)  (redirects enabled)
 StartRequest ==
     /\ pc = "idle" /\ k < nreq
-    /\ k' = k + 1 /\ att' = cfg.retries /\ pc' = "mgr"
+    /\ k' = k + 1 /\ att' = cfg.retries /\ hop' = 0 /\ curds' = cfg.ds /\ carrier' = cfg.rh /\ pc' = "mgr"
     /\ log' = Ev([Blank EXCEPT !.ev = "start", !.k = k + 1])
     /\ UNCHANGED <<cfg, nreq, slot, conn, mode, hdrs, target, err, nextcid, nconn, bad, script>>
 
-\* ProxyManager.urlopen + PoolManager.urlopen: Host/Accept only when not tunnelling; the pool is the
-\* destination's for https:// and the proxy's for http://; absolute-form iff not tunnelling.
+\* ProxyManager.urlopen + PoolManager.urlopen: when not tunnelling kw["headers"] becomes a fresh dict
+\* {Accept, Host, **headers}; the pool is the destination's for https:// and the proxy's for http://;
+\* absolute-form iff not tunnelling.
 MgrUrlopen ==
     /\ pc = "mgr"
-    /\ LET tun == TunnelRequiredCode(cfg) IN
-       /\ hdrs' = IF ~tun \/ Bug = "setproxyhdr_https" THEN cfg.rh \cup {"accept"} ELSE cfg.rh
-       /\ target' = IF ~tun /\ Bug # "origin_form_to_proxy" THEN Url(cfg, k) ELSE Path(k)
+    /\ carrier' = IF ~Tun \/ Bug = "setproxyhdr_https" THEN carrier \cup {"accept"} ELSE carrier
+    /\ hdrs' = carrier'
+    /\ target' = IF ~Tun /\ Bug # "origin_form_to_proxy" THEN Url(cfg, curds, k, hop) ELSE Path(k, hop)
     /\ pc' = "pool"
-    /\ UNCHANGED <<cfg, nreq, log, k, att, slot, conn, mode, err, nextcid, nconn, bad, script>>
+    /\ UNCHANGED <<cfg, nreq, log, k, att, hop, curds, slot, conn, mode, err, nextcid, nconn, bad, script>>
 
-\* HTTPConnectionPool.urlopen: merge proxy headers only when not tunnelling
+\* HTTPConnectionPool.urlopen: merge proxy headers only when not tunnelling - into a COPY, so the
+\* caller's carrier is untouched (deviation carrier_mutated: the carrier itself is updated)
 PoolUrlopen ==
     /\ pc = "pool"
-    /\ hdrs' = IF ~TunnelRequiredCode(cfg) \/ Bug = "merge_always" THEN hdrs \cup cfg.ph ELSE hdrs
+    /\ LET merge == ~Tun \/ Bug = "merge_always" IN
+       /\ hdrs' = IF merge THEN hdrs \cup cfg.ph ELSE hdrs
+       /\ carrier' = IF merge /\ Bug = "carrier_mutated" THEN carrier \cup cfg.ph ELSE carrier
     /\ pc' = "getconn"
-    /\ UNCHANGED <<cfg, nreq, log, k, att, slot, conn, mode, target, err, nextcid, nconn, bad, script>>
+    /\ UNCHANGED <<cfg, nreq, log, k, att, hop, curds, slot, conn, mode, target, err, nextcid, nconn, bad, script>>
 
 \* _get_conn: pooled connection (closed first if the peer dropped it) or a new connection object
 GetConn ==
     /\ pc = "getconn"
-    /\ IF slot.st = "none"
-       THEN conn' = [NoConn EXCEPT !.st = "fresh"] /\ nconn' = nconn + 1
-       ELSE conn' = (IF slot.dropped THEN [slot EXCEPT !.st = "closed", !.dropped = FALSE] ELSE slot)
+    /\ IF slot[Pool].st = "none"
+       THEN conn' = [NoConn EXCEPT !.st = "fresh"] /\ nconn' = [nconn EXCEPT ![Pool] = @ + 1]
+       ELSE conn' = (IF slot[Pool].dropped THEN [slot[Pool] EXCEPT !.st = "closed", !.dropped = FALSE] ELSE slot[Pool])
             /\ nconn' = nconn
-    /\ slot' = NoConn /\ pc' = "prepare"
-    /\ UNCHANGED <<cfg, nreq, log, k, att, mode, hdrs, target, err, nextcid, bad, script>>
+    /\ slot' = [slot EXCEPT ![Pool] = NoConn] /\ pc' = "prepare"
+    /\ UNCHANGED <<cfg, nreq, log, k, att, hop, curds, carrier, mode, hdrs, target, err, nextcid, bad, script>>
 
 \* "if proxy and http_tunnel_required and conn.is_closed: _prepare_proxy(conn)" (set_tunnel + connect);
 \* otherwise _validate_conn connects a closed connection the way it was configured before.
 Prepare ==
     /\ pc = "prepare"
-    /\ LET doPrep == /\ TunnelRequiredCode(cfg) /\ Closed(conn)
-                     /\ (Bug = "prepare_first_only" => nconn = 1) IN
+    /\ LET doPrep == /\ Tun /\ Closed(conn)
+                     /\ (Bug = "prepare_first_only" => nconn[Pool] = 1) IN
        IF doPrep THEN conn' = [conn EXCEPT !.tun = TRUE] /\ mode' = "tunnel" /\ pc' = "dial"
        ELSE IF Closed(conn) THEN conn' = conn /\ mode' = (IF conn.tun THEN "tunnel" ELSE "direct") /\ pc' = "dial"
        ELSE conn' = conn /\ mode' = mode /\ pc' = "send"
-    /\ UNCHANGED <<cfg, nreq, log, k, att, slot, hdrs, target, err, nextcid, nconn, bad, script>>
+    /\ UNCHANGED <<cfg, nreq, log, k, att, hop, curds, carrier, slot, hdrs, target, err, nextcid, nconn, bad, script>>
 
 \* _new_conn: TCP always goes to the proxy
 Dial ==
@@ -272,8 +300,8 @@ Dial ==
     /\ log' = Ev([Blank EXCEPT !.ev = "dial", !.cid = nextcid, !.k = k, !.target = ProxyAddr])
     /\ pc' = IF cfg.ps = "https" THEN "tlsproxy"
              ELSE IF mode = "tunnel" THEN "connect"
-             ELSE IF cfg.ds = "https" THEN "tlsdirect" ELSE "send"
-    /\ UNCHANGED <<cfg, nreq, k, att, slot, mode, hdrs, target, err, nconn, bad, script>>
+             ELSE IF curds = "https" THEN "tlsdirect" ELSE "send"
+    /\ UNCHANGED <<cfg, nreq, k, att, hop, curds, carrier, slot, mode, hdrs, target, err, nconn, bad, script>>
 
 \* TLS to the proxy (_connect_tls_proxy when tunnelling, plain HTTPSConnection.connect when forwarding),
 \* verified against the proxy's own name
@@ -286,25 +314,25 @@ TlsToProxy ==
             /\ pc' = IF mode = "tunnel" THEN "connect" ELSE "send"
        ELSE conn' = [conn EXCEPT !.st = "closed"] /\ pc' = "error"
             /\ err' = <<"ProxyError", "SSLError", "SSLCertVerificationError">>
-    /\ UNCHANGED <<cfg, nreq, k, att, slot, mode, hdrs, target, nextcid, nconn, bad, script>>
+    /\ UNCHANGED <<cfg, nreq, k, att, hop, curds, carrier, slot, mode, hdrs, target, nextcid, nconn, bad, script>>
 
 \* only reachable through a deviation: TLS started straight at a plain-HTTP proxy
 TlsDirectAtPlainProxy ==
     /\ pc = "tlsdirect"
     /\ log' = Ev([Blank EXCEPT !.ev = "msg", !.cid = conn.cid, !.k = k, !.party = "proxy", !.form = "tlshello"])
     /\ conn' = [conn EXCEPT !.st = "closed"] /\ err' = <<"ProxyError", "SSLError", "SSLError">> /\ pc' = "error"
-    /\ UNCHANGED <<cfg, nreq, k, att, slot, mode, hdrs, target, nextcid, nconn, bad, script>>
+    /\ UNCHANGED <<cfg, nreq, k, att, hop, curds, carrier, slot, mode, hdrs, target, nextcid, nconn, bad, script>>
 
 \* http.client _tunnel(): CONNECT <_tunnel_host>:<port> with the proxy headers (+ Host)
 TunnelHostCode == IF Bug = "strip_brackets" /\ cfg.hk = "ipv6" THEN "fd00::7" ELSE UrlHost(cfg.hk)
 SendConnect ==
     /\ pc = "connect"
-    /\ LET t == TunnelHostCode \o ":" \o PortOf(cfg) IN
+    /\ LET t == TunnelHostCode \o ":" \o PortOf(cfg, curds) IN
        log' = Ev([Blank EXCEPT !.ev = "msg", !.cid = conn.cid, !.k = k, !.party = "proxy", !.form = "CONNECT",
                                !.method = "CONNECT", !.target = t, !.host = t, !.hdr = cfg.ph,
                                !.outer = (IF cfg.ps = "https" THEN cfg.pcert ELSE "none")])
     /\ conn' = [conn EXCEPT !.st = "connectsent"] /\ pc' = "creply"
-    /\ UNCHANGED <<cfg, nreq, k, att, slot, mode, hdrs, target, err, nextcid, nconn, bad, script>>
+    /\ UNCHANGED <<cfg, nreq, k, att, hop, curds, carrier, slot, mode, hdrs, target, err, nextcid, nconn, bad, script>>
 
 \* environment: the proxy's answer to this CONNECT
 ConnectReply(r) ==
@@ -325,7 +353,7 @@ ConnectReply(r) ==
           /\ log' = Ev([Blank EXCEPT !.ev = "reply", !.cid = conn.cid, !.k = k, !.code = r])
           /\ conn' = [conn EXCEPT !.st = "closed"] /\ pc' = "error"
           /\ err' = IF r = "garbage" THEN <<"ProtocolError", "BadStatusLine">> ELSE <<"ProxyError", "OSError">>
-    /\ UNCHANGED <<cfg, nreq, k, att, slot, mode, hdrs, target, nextcid, nconn>>
+    /\ UNCHANGED <<cfg, nreq, k, att, hop, curds, carrier, slot, mode, hdrs, target, nextcid, nconn>>
 
 \* TLS (TLS-in-TLS behind a TLS proxy) to the origin, server_hostname = the tunnel host
 TlsToOrigin ==
@@ -337,15 +365,18 @@ TlsToOrigin ==
        /\ IF ok THEN conn' = [conn EXCEPT !.st = "tlsintunnel"] /\ pc' = "send" /\ err' = err
           ELSE conn' = [conn EXCEPT !.st = "closed"] /\ pc' = "error"
                /\ err' = <<"SSLError", "SSLCertVerificationError">>
-    /\ UNCHANGED <<cfg, nreq, k, att, slot, mode, hdrs, target, nextcid, nconn, bad, script>>
+    /\ UNCHANGED <<cfg, nreq, k, att, hop, curds, carrier, slot, mode, hdrs, target, nextcid, nconn, bad, script>>
 
-FormOf(t) == IF t = Path(k) THEN "origin" ELSE "absolute"
-\* conn.request(): the bytes go to whoever is at the other end of this connection
+FormOf(t) == IF t = Path(k, hop) THEN "origin" ELSE "absolute"
+\* conn.request(): the bytes go to whoever is at the other end of this connection.  The Host header is
+\* not part of the property; the model leaves it open ("*") where it is known to be odd: IPv6 inside a
+\* tunnel, and after a redirect (the carrier may still hold the previous hop's Host).
 SendRequest ==
     /\ pc = "send"
     /\ LET inTunnel == conn.st = "tlsintunnel"
-           h == IF inTunnel THEN (IF cfg.hk = "ipv6" THEN "*" ELSE NetLoc(cfg))
-                ELSE IF FormOf(target) = "absolute" THEN NetLoc(cfg) ELSE "*" IN
+           h == IF hop > 0 THEN "*"
+                ELSE IF inTunnel THEN (IF cfg.hk = "ipv6" THEN "*" ELSE NetLoc(cfg, curds))
+                ELSE IF FormOf(target) = "absolute" THEN NetLoc(cfg, curds) ELSE "*" IN
        log' = Ev([Blank EXCEPT !.ev = "msg", !.cid = conn.cid, !.k = k,
                                !.party = (IF inTunnel THEN "origin" ELSE "proxy"),
                                !.form = FormOf(target), !.method = "GET", !.target = target, !.hdr = hdrs, !.host = h,
@@ -353,36 +384,57 @@ SendRequest ==
                                !.inner = (IF inTunnel THEN cfg.ocert ELSE "none"),
                                !.sni = (IF inTunnel THEN (IF Bug = "proxy_sni" THEN ProxyHost ELSE SniOf(cfg)) ELSE "")])
     /\ pc' = "resp"
-    /\ UNCHANGED <<cfg, nreq, k, att, slot, conn, mode, hdrs, target, err, nextcid, nconn, bad, script>>
+    /\ UNCHANGED <<cfg, nreq, k, att, hop, curds, carrier, slot, conn, mode, hdrs, target, err, nextcid, nconn, bad,
+                   script>>
 
-\* the party answers every request; environment: it may close the connection right afterwards
-Response(close) ==
+\* the party answers every request: 200, or (environment) a redirect to the other scheme of the same
+\* destination; environment: it may close the connection right afterwards
+Response(close, rd) ==
     /\ pc = "resp"
-    /\ close => k < nreq                                 \* closing after the last request changes nothing
+    /\ rd # "none" => att >= 1 /\ hop < MaxRedir          \* only redirects the Retry budget lets the client follow
+    /\ close => (k < nreq \/ rd # "none")                 \* closing after the very last exchange changes nothing
     /\ LET by == IF conn.st = "tlsintunnel" THEN "origin" ELSE "proxy"
-           endev == [Blank EXCEPT !.ev = "end", !.k = k, !.kind = "response", !.status = 200, !.by = by] IN
-       log' = IF close THEN log \o << [Blank EXCEPT !.ev = "pclose", !.cid = conn.cid, !.k = k], endev >>
-              ELSE Ev(endev)
-    /\ script' = IF close THEN [script EXCEPT !.closes = @ \cup {k}] ELSE script
-    /\ slot' = [conn EXCEPT !.dropped = close] /\ conn' = NoConn /\ pc' = "idle"
-    /\ UNCHANGED <<cfg, nreq, k, att, mode, hdrs, target, err, nextcid, nconn, bad>>
+           loc == Url(cfg, Flip(curds), k, hop + 1)
+           answer == IF rd = "none"
+                     THEN [Blank EXCEPT !.ev = "end", !.k = k, !.kind = "response", !.status = 200, !.by = by]
+                     ELSE [Blank EXCEPT !.ev = "redir", !.cid = conn.cid, !.k = k, !.code = rd, !.target = loc]
+           closeev == [Blank EXCEPT !.ev = "pclose", !.cid = conn.cid, !.k = k] IN
+       /\ log' = IF ~close THEN Ev(answer)
+                 ELSE IF rd = "none" THEN log \o <<closeev, answer>> ELSE log \o <<answer, closeev>>
+       /\ script' = [script EXCEPT !.closes = IF close THEN @ \cup {Path(k, hop)} ELSE @,
+                                   !.redirs = IF rd = "none" THEN @
+                                              ELSE Append(@, [path |-> Path(k, hop), code |-> rd, loc |-> loc])]
+    /\ slot' = [slot EXCEPT ![Pool] = [conn EXCEPT !.dropped = close]] /\ conn' = NoConn
+    /\ pc' = IF rd = "none" THEN "idle" ELSE "mredirect"
+    /\ UNCHANGED <<cfg, nreq, k, att, hop, curds, carrier, mode, hdrs, target, err, nextcid, nconn, bad>>
+
+\* PoolManager.urlopen following the redirect: Retry.increment, strip Authorization / Proxy-Authorization
+\* (the Location is on another scheme, hence another origin) from the carrier, then self.urlopen(...)
+\* again with the SAME carrier kw["headers"]
+ManagerRedirect ==
+    /\ pc = "mredirect"
+    /\ att' = att - 1 /\ hop' = hop + 1 /\ curds' = Flip(curds)
+    /\ carrier' = carrier \ {"rauth", "pauth"}
+    /\ pc' = "mgr"
+    /\ UNCHANGED <<cfg, nreq, log, k, slot, conn, mode, hdrs, target, err, nextcid, nconn, bad, script>>
 
 \* urlopen's except/finally: the connection is discarded; retry (urlopen recursion) or raise
 OnError ==
     /\ pc = "error"
-    /\ conn' = NoConn /\ slot' = NoConn
+    /\ conn' = NoConn /\ slot' = [slot EXCEPT ![Pool] = NoConn]
     /\ IF att > 0
        THEN att' = att - 1 /\ pc' = "getconn" /\ log' = log
        ELSE /\ att' = att /\ pc' = "idle"
             /\ log' = Ev([Blank EXCEPT !.ev = "end", !.k = k, !.kind = "error",
                                        !.exc = (IF cfg.retries > 0 THEN <<"MaxRetryError">> ELSE <<>>) \o err])
-    /\ UNCHANGED <<cfg, nreq, k, mode, hdrs, target, err, nextcid, nconn, bad, script>>
+    /\ UNCHANGED <<cfg, nreq, k, hop, curds, carrier, mode, hdrs, target, err, nextcid, nconn, bad, script>>
 
 Done == pc = "idle" /\ k = nreq
 
 Next == \/ StartRequest \/ MgrUrlopen \/ PoolUrlopen \/ GetConn \/ Prepare \/ Dial \/ TlsToProxy
         \/ TlsDirectAtPlainProxy \/ SendConnect \/ (\E r \in Replies : ConnectReply(r)) \/ TlsToOrigin
-        \/ SendRequest \/ (\E b \in BOOLEAN : Response(b)) \/ OnError
+        \/ SendRequest \/ (\E b \in BOOLEAN, rd \in {"none"} \cup RedirCodes : Response(b, rd))
+        \/ ManagerRedirect \/ OnError
 
 Spec == Init /\ [][Next]_vars
 
@@ -390,8 +442,9 @@ Spec == Init /\ [][Next]_vars
 (* What TLC checks on the model (stage 1)                                                      *)
 
 TypeOK == /\ pc \in {"idle", "mgr", "pool", "getconn", "prepare", "dial", "tlsproxy", "tlsdirect", "connect",
-                     "creply", "tlsorigin", "send", "resp", "error"}
-          /\ k \in 0..nreq /\ att \in 0..1 /\ bad \in 0..MaxBad
+                     "creply", "tlsorigin", "send", "resp", "mredirect", "error"}
+          /\ k \in 0..nreq /\ att \in 0..1 /\ bad \in 0..MaxBad /\ hop \in 0..MaxRedir
+          /\ curds \in {"http", "https"} /\ carrier \subseteq {"rauth", "rtag", "accept", "pauth", "ptag"}
           /\ conn.st \in {"none", "fresh", "tcp", "tlsproxy", "connectsent", "tunnel", "tlsintunnel", "closed"}
 
 \* The log only grows, by at most two events per step, and every Off_ predicate at position i only
@@ -414,8 +467,8 @@ StateAgrees == conn.cid # 0 /\ conn.st \notin {"none", "fresh"} =>
                   IF conn.st = "closed" THEN s \in {"closed", "refused"} ELSE s = conn.st
 
 \* the code's routing table agrees with the property's wherever the property fixes the route
-RouteTableAgrees == /\ MustTunnel(cfg) => TunnelRequiredCode(cfg)
-                    /\ MustForward(cfg) => ~TunnelRequiredCode(cfg)
+RouteTableAgrees == \A d \in {"http", "https"} : /\ MustTunnel(cfg, d) => TunnelRequiredCode(cfg, d)
+                                                 /\ MustForward(cfg, d) => ~TunnelRequiredCode(cfg, d)
 
 \* extras beyond the statement (soft on real traces): request headers never ride on a CONNECT,
 \* and a request is delivered at most once per attempt of its budget
